@@ -50,6 +50,8 @@ ARCH = {
                       gex={'sizes': [1536, 3072], 'style': 'roundup'}),
     'rate': _p(banner='SSH-2.0-OpenSSH_9.6', kex=['curve25519-sha256', 'diffie-hellman-group14-sha256'], key=['ssh-ed25519'], keys={'ssh-ed25519': {}}),
     'ssh1': {'banner': 'SSH-1.5-OpenSSH_3.4', 'ssh2': False, 'ssh1': {'cmask': 0x4c, 'amask': 0x3c, 'hkey_bits': 1024, 'skey_bits': 768}},
+    # answers every identification line, SSH-2 or SSH-1, with the version-mismatch notice and hangs up (a gateway / tarpit)
+    'mismatch_only': {'banner': 'SSH-1.5-LegacyGate_1.0', 'ssh2': False, 'ssh1': None},
     'client': _p(banner='SSH-2.0-OpenSSH_9.6', kex=['curve25519-sha256', 'ext-info-c', 'kex-strict-c-v00@openssh.com'], key=['ssh-ed25519', 'rsa-sha2-512'], pre=[]),
 }
 TEXT_OPTS = [['-n'], ['-n'], [], ['-n', '-v'], ['-n', '-b']]
@@ -184,6 +186,10 @@ def cases(seed, tier):
         compound = gen.case_rng(seed, ID, 'compound-pick').sample(compound, min(len(compound), 600))
     for c in compound:
         yield c
+    # the archetypes themselves, without any fault, under every option set (the baseline every faulty run is a departure from)
+    for arch in archs:
+        for opts in TEXT_OPTS:
+            yield {'arch': arch, 'faults': [], 'opts': list(opts), 'timeout': 2, 'net': {'rtt_us': 200, 'seg': {'mode': 'msg'}}, 'pseed': 1}
     # well-formed messages that carry hostile values: a group whose modulus / generator are tiny or degenerate (the tool computes with them)
     for arch in archs:
         tr, _n, _ = transcript(arch)
